@@ -371,11 +371,7 @@ Section FreshMain.
       { intros q Hq. unfold expected_paths in Hq. apply (dedup_by_In path_eqb path_eqb_spec) in Hq. destruct Hq as [Hq _].
         apply in_map_iff in Hq. destruct Hq as [q0 [Hren Hq0]].
         assert (Hrm : rename_map [h1] = []).
-        { unfold rename_map. cbn [flat_map]. rewrite Hgens. cbn [flat_map]. rewrite !app_nil_r.
-          assert (Hz : forall l, (forall r', In r' l -> r_prev r' = None) ->
-                    flat_map (fun r => match r_prev r with Some q => [(lh_root h1 ++ q, lh_root h1 ++ r_path r)] | None => [] end) l = []).
-          { induction l as [|a l IHl]; intros H; [reflexivity|]. cbn [flat_map]. rewrite (H a (or_introl eq_refl)). apply IHl. intros r' Hr'. apply H. right. exact Hr'. }
-          apply Hz. exact Hprev. }
+        { unfold rename_map. cbn [flat_map]. rewrite app_nil_r. apply hist_rename_map_nil. rewrite Hgens. intros g r [<-|[]] Hr. apply Hprev. exact Hr. }
         unfold renamed in Hren. rewrite Hrm in Hren. cbn in Hren. subst q0.
         unfold recorded_paths in Hq0. cbn [flat_map] in Hq0. rewrite Hgens, Hroot1 in Hq0. cbn [flat_map app] in Hq0. rewrite !app_nil_r in Hq0.
         apply Hpaths. exact Hq0. }
